@@ -213,6 +213,8 @@ where
     #[cfg(rustdds_verif)]
     crate::verif_hooks::sched::yield_point("sdr.drained06");
     self.event_source.drain();
+    #[cfg(rustdds_verif)]
+    crate::verif_hooks::sched::yield_point("sdr.drained08");
   }
 
   fn try_take_undecoded<'a>(
